@@ -2,7 +2,7 @@
 import vcheck
 
 PID = "C09"
-MODULES = ["BeffVerif.Props.C09"]
+MODULES = ["BeffVerif.Props.C09", "BeffVerif.Props.C09Bind"]
 AUDIT = "BeffVerif/Audit/C09.lean"
 TAGS = ("c09.",)
 
